@@ -1809,6 +1809,9 @@ def check_C11(ctx):
     # the discipline that makes this safe observed on every backend call of histories that grow, shrink and compact
     resize_design(ctx)
     run_commitio(ctx, tiered(ctx, 4, 30), tiered(ctx, 200, 400), profile="crashcompact", modules=("ResizeTrace",))
+    # which open path is taken: the saved allocator state is used iff the two-phase flag is set and the snapshot's transaction id is
+    # the primary's (read by the independent decoder) - RecoverTrace.tla on files built for every input class and on crash images
+    run_opencases(ctx, tiered(ctx, (512,), (512, 4096)))
     st = run_crash(ctx, tiered(ctx, 10, 50), tiered(ctx, 140, 250), extra=["--second-every", str(tiered(ctx, 31, 11))], recover_every=tiered(ctx, 3, 4))
     run_kv_walk(ctx, "reopen", tiered(ctx, 24, 240), tiered(ctx, 500, 1500), page_sizes="512,1024,4096", caches="1048576,0")
     run_kv_walk(ctx, "reopen", tiered(ctx, 6, 60), 800, page_sizes="512", caches="1048576", tag="reopen-regions", extra=["--region-size", "65536"], nkeys=200)
@@ -1821,7 +1824,9 @@ def check_C11(ctx):
     return dict(level="fault_enumeration", exhaustive=False,
                 rule="design: Resize.tla (file length vs region counts vs layout in memory across grow / shrinking commit / clean close / crash: "
                      "every open finds a layout that covers the commits it may serve; two seeded-bad variants caught) and its discipline checked on "
-                     "every backend call of compacting histories (ResizeTrace.tla); the layout adopted by real opens is judged by RecoverTrace.tla. "
+                     "every backend call of compacting histories (ResizeTrace.tla); the layout adopted by real opens and the open path taken (saved allocator state used iff two-phase flag and the snapshot's "
+                     "transaction id, read by the independent decoder, is the primary's) are judged by RecoverTrace.tla on files realising every "
+                     "input class of Recover.tla and on sampled crash images. "
                      "PagerCrash.tla = Pager.tla plus a crash inside any critical section, recovery rebuilding the allocator "
                      "state from the durable commit's trees and pending-free tables: Owner1 / Pinned / AllocRecordsOk / DurableIntact in the "
                      "recovered state and everything reachable from it (811 590 states); the variant that forgets the pending-free "
